@@ -28,7 +28,7 @@ theorem C02_dims : ∀ f ∈ Gen.formatIds, Gen.formatDims f = (Spec.recLayout f
     ∀ e ∈ Spec.recLayout f, Gen.dimTypes.lookup e.1 = some (e.2.2.2, e.2.2.1) := by decide +kernel
 
 /-- bit assignments of the packed bytes -/
-theorem C02_bits : ∀ f ∈ Gen.formatIds, Gen.composed f = Spec.bits f := by decide +kernel
+theorem C02_bits : ∀ f ∈ Gen.formatIds, Gen.composed f = Spec.bits f := C09.C09_bits_of_the_dimension
 
 theorem C02_versions : Gen.versionFormats = Spec.versionFormats := rfl
 
